@@ -588,6 +588,7 @@ type Opts struct {
 	MaxWidth int  // widest container
 	MaxBlob  int  // longest blob / text
 	Budget   *int // remaining node budget for this value (shared by the recursion)
+	FullHash bool // maps may draw keys with identical full 32-bit hashes (fullhash.go); off: nothing changes
 }
 
 var i64b = []int64{0, 1, -1, 127, 128, -128, -129, 32767, 32768, -32768, -32769, 1 << 23, -(1 << 23) - 1, 1<<31 - 1, 1 << 31, -(1 << 31),
@@ -745,6 +746,18 @@ func randKeys(r *rand.Rand, n int) [][]byte {
 	return out
 }
 
+// randKeysO is randKeys, except that with o.FullHash one map in three takes keys
+// whose full 32-bit hashes are identical (the random stream of callers that leave the
+// option off is untouched).
+func randKeysO(r *rand.Rand, n int, o *Opts) [][]byte {
+	if o != nil && o.FullHash && n >= 2 && r.Intn(3) == 0 {
+		if ks := fullHashKeys(r, n); ks != nil {
+			return ks
+		}
+	}
+	return randKeys(r, n)
+}
+
 func randIKeys(r *rand.Rand, n int) []int32 {
 	seen := map[int32]bool{}
 	var out []int32
@@ -869,7 +882,7 @@ func RandOf(r *rand.Rand, t byte, depth int, o *Opts) *Node {
 	case TMap:
 		n := Map()
 		if depth > 0 {
-			for _, k := range randKeys(r, width(r, o)) {
+			for _, k := range randKeysO(r, width(r, o), o) {
 				n.Put(k, Rand(r, depth-1, o))
 			}
 		}
